@@ -25,6 +25,14 @@ func (e Engine) Decode(raw json.RawMessage) (any, error) {
 	if err := json.Unmarshal(raw, c); err != nil {
 		return nil, err
 	}
+	if c.Lists != nil {
+		for _, gi := range c.Lists.Graphs {
+			if gi < 0 || gi >= len(c.Graphs) {
+				return nil, fmt.Errorf("lists: graph index %d out of range", gi)
+			}
+		}
+	}
+	c.Normalise()
 	if err := c.Validate(); err != nil {
 		return nil, err
 	}
@@ -130,6 +138,28 @@ func tags(c *Case, obs *RunObs) ([]string, bool) {
 	}
 	if c.NoID {
 		t = append(t, "no-id")
+	}
+	if l := c.Lists; l != nil {
+		t = append(t, fmt.Sprintf("lists:shared-by-%d", len(l.Graphs)))
+		foreign, dup := false, false
+		for _, xs := range [][]int{l.Before, l.After} {
+			for i, x := range xs {
+				own := false
+				for _, gi := range l.Graphs {
+					own = own || c.Graphs[gi].node(x) != nil
+				}
+				foreign = foreign || !own
+				dup = dup || has(xs[:i], x)
+			}
+		}
+		if foreign {
+			t = append(t, "lists:foreign-names")
+		}
+		if dup {
+			t = append(t, "lists:names-twice")
+		}
+	} else {
+		t = append(t, "lists:own")
 	}
 	return t, interrupts > 0
 }
